@@ -544,6 +544,35 @@ func genSchedule(rng *rand.Rand, family string, depth int) *Schedule {
 		add(Step{A: "Deliver", P: "B"})
 		add(Step{A: "Deliver", P: "A"})
 		return sc
+	case "rekey":
+		// traffic that rotates keys and leaves MAC keys awaiting disclosure, then (with messages
+		// possibly still in flight) the session is refreshed by a new key exchange; repeated
+		sc.Setup = "ake"
+		for d := 0; d < depth; d++ {
+			for k, n := 0, 1+rng.Intn(7); k < n; k++ {
+				p := ps[rng.Intn(2)]
+				if rng.Intn(5) < 2 {
+					text++
+					add(Step{A: "Send", P: p, T: text})
+				} else {
+					add(Step{A: "Deliver", P: p})
+				}
+			}
+			if rng.Intn(2) == 0 {
+				for k := 0; k < 4; k++ {
+					add(Step{A: "Deliver", P: "A"})
+					add(Step{A: "Deliver", P: "B"})
+				}
+			}
+			add(Step{A: "Tick", P: "A"})
+			add(Step{A: "Tick", P: "B"})
+			add(Step{A: "Query", P: ps[rng.Intn(2)]})
+			for k := 0; k < 5; k++ {
+				add(Step{A: "Deliver", P: "A"})
+				add(Step{A: "Deliver", P: "B"})
+			}
+		}
+		return sc
 	case "pingpong":
 		sc.Setup, sc.Fam = "ake", "fifo-data"
 		for d := 0; d < depth; d++ {
